@@ -359,3 +359,49 @@ def bound_neighbours(lo, hi):
 
 def in_rng(T, r):
     return r is None or (r[0] <= T <= r[1])
+
+
+# ----------------------------------------------------------------------------- reach of the generators (DESIGN Appendix B)
+class Reach:
+    """line coverage of the anchored functions while the harness calls into pgradd (coverage.py); the functions are
+    located through the live objects (inspect), not by line numbers"""
+
+    def __init__(self, funcs):
+        self.funcs = funcs          # list of (label, function object)
+        self.cov = None
+
+    def __enter__(self):
+        try:
+            import coverage, os
+            os.environ.setdefault('COVERAGE_CORE', 'sysmon')     # sys.monitoring: low overhead on CPython 3.12
+            files = sorted(set(f.__code__.co_filename for _, f in self.funcs))
+            self.cov = coverage.Coverage(data_file=None, include=files, branch=False, config_file=False)
+            self.cov.start()
+        except Exception:
+            self.cov = None
+        return self
+
+    def __exit__(self, *a):
+        if self.cov is not None:
+            self.cov.stop()
+        return False
+
+    def report(self):
+        """{label: {'lines': n, 'missed': [line numbers]}} or None when coverage.py is unavailable"""
+        import inspect
+        if self.cov is None:
+            return None
+        data = self.cov.get_data()
+        out = {}
+        for label, f in self.funcs:
+            fn = f.__code__.co_filename
+            executed = set(data.lines(fn) or [])
+            try:
+                _, stmts, _, missing, _ = self.cov.analysis2(fn)
+            except Exception:
+                continue
+            src, start = inspect.getsourcelines(f)
+            rng = range(start, start + len(src))
+            mine = [l for l in stmts if l in rng]
+            out[label] = {'statements': len(mine), 'missed': [l for l in mine if l not in executed and l != start]}
+        return out
